@@ -186,8 +186,77 @@ def velocity_derivatives_exact(ctx, rule="C04.R10"):
         rep.ok(rule, f"{rel}:RigidBody", f"only {n} blocks decided", verdict="unknown", trivial=True)
 
 
+def kinematic_map_degree(ctx, rule="C04.R13"):
+    """q_dot(q, u) must turn the body with the angular velocity u reports, for EVERY quaternion (solvers hand over non-unit ones at
+    intermediate stages).  The reported orientation A(P) is a function of the quaternion's direction only (degree d_A = 0 under P -> s P with
+    the normalising Exp_SO3_quat), so d/dt A = A_P . P_dot with A_P of degree d_A - 1: the angular velocity of the reported frame is
+    independent of |P| exactly when P_dot = T(P) omega has degree d_A + 1 in P.  The call sites fix the flags (normalize=False): the degree
+    of T_SO3_inv_quat AS CALLED by q_dot / q_dot_u is d_A + 1, that of T_SO3_inv_quat_P AS CALLED by q_dot_q is d_A (K6)."""
+    from fractions import Fraction as F
+    from ..degrees import Interp, fmt
+    rep = ctx.rep
+    ROT, ALG = "cardillo/math/rotations.py", "cardillo/math/algebra.py"
+    fns = {}
+    for m in (ALG, ROT):
+        for st in ctx.repo.module(m).tree.body:
+            if isinstance(st, ast.FunctionDef):
+                fns[st.name] = st
+    files = [FILES["RigidBody"], "cardillo/rods/_base.py", "cardillo/rods/cosseratRod.py"]
+    sites = {"Exp_SO3_quat": [], "T_SO3_inv_quat": [], "T_SO3_inv_quat_P": []}
+    for rel in files:
+        mod = ctx.repo.module(rel)
+        for q, f in mod.defs().items():
+            if not isinstance(f, ast.FunctionDef):
+                continue
+            for w in ast.walk(f):
+                if isinstance(w, ast.Call) and isinstance(w.func, ast.Name) and w.func.id in sites and w.args:
+                    flags = {k.arg: k.value.value for k in w.keywords if k.arg and isinstance(k.value, ast.Constant)}
+                    if len(w.args) > 1 and isinstance(w.args[1], ast.Constant):
+                        flags["normalize"] = w.args[1].value
+                    flags.setdefault("normalize", True)
+                    sites[w.func.id].append((rel, q, w, flags))
+    if len(sites["Exp_SO3_quat"]) < 4 or len(sites["T_SO3_inv_quat"]) < 4 or len(sites["T_SO3_inv_quat_P"]) < 2:
+        raise AnalysisError(f"{rule}: quaternion kernel call sites vanished ({ {k: len(v) for k, v in sites.items()} })")
+    memo = {}
+    def deg(name, flags):
+        key = (name, tuple(sorted(flags.items())))
+        if key not in memo:
+            it = Interp(fns, module_consts={"eye3": F(0)})
+            d = it.run(name, {"P": F(1)}, dict(flags))
+            memo[key] = (d, bool(it.violations))
+        return memo[key]
+    dA = None
+    for rel, q, w, flags in sites["Exp_SO3_quat"]:
+        d, viol = deg("Exp_SO3_quat", flags)
+        if viol or not isinstance(d, F):
+            rep.note(f"{rule}: {rel}:{q}: degree of `{norm_src(w)[:50]}` not homogeneous / not inferred; site not used")
+            continue
+        dA = d if dA is None else dA
+        if d != dA:
+            rep.note(f"{rule}: orientation maps of different degree ({fmt(d)} vs {fmt(dA)}); not decided")
+            return
+    if dA is None:
+        raise AnalysisError(f"{rule}: no orientation map with an inferred degree")
+    for name, want, what in (("T_SO3_inv_quat", dA + 1, "P_dot = T(P) omega"), ("T_SO3_inv_quat_P", dA, "the derivative of T(P)")):
+        for rel, q, w, flags in sites[name]:
+            C = f"{rel}:{q}"
+            d, viol = deg(name, flags)
+            fl = ", ".join(f"{k}={v}" for k, v in sorted(flags.items()))
+            if viol or not isinstance(d, F):
+                rep.bad(rule, C, w, f"`{name}` as called here ({fl}) is not homogeneous in the quaternion any more (terms of different degree): {what} cannot have the degree "
+                        f"{fmt(want)} that makes the angular velocity of the reported frame independent of |P|", f"{rel}:{w.lineno}")
+            elif d != want:
+                rep.bad(rule, C, w, f"`{name}` as called here ({fl}) scales with degree {fmt(d)} under P -> s P, but the reported orientation has degree {fmt(dA)}: {what} must have degree "
+                        f"{fmt(want)}; with degree {fmt(d)} a body with a non-unit quaternion turns at omega |P|^{fmt(d - want)} while B_Omega reports omega (v_P, a_P, B_Psi are then not the time "
+                        "derivatives of r_OP, v_P, B_Omega along q_dot)", f"{rel}:{w.lineno}")
+            else:
+                rep.ok(rule, C, f"`{name}({fl})` has degree {fmt(d)} = d_A {'+ 1' if want != dA else ''} (d_A = {fmt(dA)})")
+
+
 def run(ctx):
     rep = ctx.rep
+    rep.rule("C04.R13", "the kinematic map q_dot = T(P) omega has, with the flags of its call sites, the scaling degree in the quaternion that makes the reported frame turn with the reported angular velocity for non-unit quaternions too (degree of the orientation map + 1; K6)", 4)
+    kinematic_map_degree(ctx)
     rep.rule("C04.R7", "dependence monotonicity (K13) over every primal/derivative pair of K5: a stated derivative reads no datum its primal does not read", 30)
     from .. import depmono as _dm
     _dm.check_k5_pairs(ctx, "C04.R7", ['RigidBody', 'PointMass', 'Frame'])
@@ -411,4 +480,18 @@ NEUTRAL += [
 MUTANTS += [
     dict(id="c04-r12-seed", canary=True, what="[seeded by sub-agent] RigidBody.v_P_q and kappa_P_q memoised 'like v_P', the decorator copy-pasted with the same cache object", file='cardillo/discrete/rigid_body.py',
          edits=[('cardillo/discrete/rigid_body.py', '    def v_P_q(self, t, q, u, xi=None, B_r_CP=np.zeros(3, dtype=float)):\n', '    @cachedmethod(\n        lambda self: self.v_P_cache,\n        key=lambda self, t, q, u, xi=None, B_r_CP=np.zeros(3, dtype=float): hashkey(t, *q, *u, *B_r_CP),\n    )\n    def v_P_q(self, t, q, u, xi=None, B_r_CP=np.zeros(3, dtype=float)):\n'), ('cardillo/discrete/rigid_body.py', '    def kappa_P_q(self, t, q, u, xi=None, B_r_CP=np.zeros(3)):\n', '    @cachedmethod(\n        lambda self: self.v_P_cache,\n        key=lambda self, t, q, u, xi=None, B_r_CP=np.zeros(3, dtype=float): hashkey(t, *q, *u, *B_r_CP),\n    )\n    def kappa_P_q(self, t, q, u, xi=None, B_r_CP=np.zeros(3)):\n')], expect="C04.R12"),
+]
+
+ROT4 = "cardillo/math/rotations.py"
+MUTANTS += [
+    dict(id="c04-r13-seed", canary=True, what="[seeded by sub-agent] T_SO3_inv_quat honours normalize=False by returning the pseudo-inverse L(P)^T / (2 |P|^2) (degree -1)", file=ROT4,
+         old="    p0, p = P[0], P[1:]\n    return np.vstack((-p, p0 * eye3 + ax2skew(p))) / 2\n",
+         new="    p0, p = P[0], P[1:]\n    matrix = np.vstack((-p, p0 * eye3 + ax2skew(p))) / 2\n    if not normalize:\n        matrix /= P @ P\n    return matrix\n", expect="C04.R13"),
+    dict(id="c04-r13-site", what="RigidBody.q_dot normalises the quaternion before the kinematic map (degree 0)", file=RB,
+         old="        q_dot[3:] = T_SO3_inv_quat(q[3:], normalize=False) @ u[3:]", new="        q_dot[3:] = T_SO3_inv_quat(q[3:] / norm(q[3:]), normalize=False) @ u[3:]", expect="C04.R13"),
+]
+NEUTRAL += [
+    dict(id="c04-n-r13", canary=True, what="T_SO3_inv_quat builds its matrix in a local first", file=ROT4,
+         old="    p0, p = P[0], P[1:]\n    return np.vstack((-p, p0 * eye3 + ax2skew(p))) / 2\n",
+         new="    p0, p = P[0], P[1:]\n    matrix = np.vstack((-p, p0 * eye3 + ax2skew(p))) / 2\n    return matrix\n"),
 ]
